@@ -9,6 +9,10 @@ def prepare(seed, conf, pending="mixed", presteps=10):
     """a Gen whose array has been synced and then has pending changes of the requested kind"""
     g = scen.Gen(seed, conf=conf, profile="syncheavy")
     rng = g.rng
+    if pending == "tiny":
+        # one stripe only (the spare file of every disk): every stripe a scrub processes can be made to fail
+        g.rec.sync("-E"); g.steps.append("sync -E")
+        return g
     for _ in range(presteps):
         d = rng.choice([g.op_add, g.op_add, g.op_delete, g.op_touch])()
         if d:
@@ -23,6 +27,15 @@ def prepare(seed, conf, pending="mixed", presteps=10):
         g.a.write_file(0, "TAIL", g.content(3), mtime=g.stamp()); g.rec.env("write 0/TAIL"); g.steps.append("write 0/TAIL")
         g.a.clock += 10
         g.rec.sync("-E"); g.steps.append("sync -E")
+    if pending == "deletes":
+        # only deletions are pending (of files that are fully synced)
+        k = 0
+        for d in range(conf.nd):
+            fl = [f for f in g.files(d) if f != "zz"]
+            for f in fl[:1 + (seed + d) % 2]:
+                g.a.remove(d, f); g.rec.env("delete %d/%s" % (d, f)); g.steps.append("delete %d/%s" % (d, f)); k += 1
+        if k:
+            return g
     n = 0
     while n < 3:
         if pending in ("adds", "holes"):
